@@ -17,9 +17,9 @@ func propC10() *Property {
 		Explanation: "Structural clauses of collection paging only. Decided: (R1) the walk is bounded: the only recursion of harvestWithEmptyCount is guarded by the false edge of `emptyCount > 3`, the counter is incremented exactly on the empty-page edge, and every early return delivers exactly one failure item with a nil continuation; (R2) 'consecutive' means reset: on every path that does not increment the counter, the counter handed to the next page was last assigned a constant (it does not depend on the incoming counter); (R3) slot/source agreement and order: element k of this page is stored at slot k from c.elements[k+startingPoint] (difference of the linear index forms is exactly startingPoint), the result is this page's items followed by the later pages', and the next page is asked for amount-amountFromThisPage items from offset 0; (R4) continuation shape: the page names itself as continuation only under length > amount+startingPoint with next offset amount+startingPoint, otherwise it forwards the deeper result or ends with nil. NOT decided: that these pieces compose to 'every item exactly once, in order' for every layout and chunking, prefix-of-truth on cyclic chains, and the unsigned arithmetic of amountFromThisPage (value-level reasoning).",
 		Assumptions: []string{"goroutine fan-out in harvest is race-free (C08.R5)"},
 		Rules: []Rule{
-			{ID: "C10.R1", Title: "bounded walk: threshold guard, increment on empty pages only, failure returns", Floor: 6, Run: c10R1},
-			{ID: "C10.R2", Title: "consecutive empty pages: the counter is reset on a non-empty page", Floor: 2, Run: c10R2},
-			{ID: "C10.R3", Title: "slot/source index agreement, order of concatenation, remainder request", Floor: 4, Run: c10R3},
+			{ID: "C10.R1", Title: "bounded walk: threshold guard, increment on empty pages only, failure returns", Floor: 3, Run: c10R1},
+			{ID: "C10.R2", Title: "consecutive empty pages: the counter is reset on a non-empty page", Floor: 1, Run: c10R2},
+			{ID: "C10.R3", Title: "slot/source index agreement, order of concatenation, remainder request", Floor: 3, Run: c10R3},
 			{ID: "C10.R4", Title: "continuation shape", Floor: 3, Run: c10R4},
 		},
 	}
